@@ -27,8 +27,9 @@ const (
 )
 
 type KV struct {
-	K string // int keys are kept in canonical decimal form
-	V *V
+	K  string // int keys are kept in canonical decimal form
+	V  *V
+	SK bool // (serialize raw trees only) the key was written as a string token even though it looks like an integer
 }
 
 // V is one value. A KMap keeps insertion order.
@@ -64,7 +65,7 @@ func (v *V) clone() *V {
 	if v.M != nil {
 		c.M = make([]KV, len(v.M))
 		for i, e := range v.M {
-			c.M[i] = KV{e.K, e.V.clone()}
+			c.M[i] = KV{K: e.K, V: e.V.clone(), SK: e.SK}
 		}
 	}
 	return &c
@@ -157,7 +158,7 @@ func pairs(v *V) []KV {
 	}
 	kv := make([]KV, len(v.L))
 	for i, e := range v.L {
-		kv[i] = KV{strconv.Itoa(i), e}
+		kv[i] = KV{K: strconv.Itoa(i), V: e}
 	}
 	return kv
 }
@@ -424,7 +425,7 @@ func genValue(r *rand.Rand, o genOpts, depth int) *V {
 				continue
 			}
 			seen[k] = true
-			v.M = append(v.M, KV{k, genValue(r, o, depth+1)})
+			v.M = append(v.M, KV{K: k, V: genValue(r, o, depth+1)})
 		}
 		return v
 	default:
@@ -443,7 +444,7 @@ func genValue(r *rand.Rand, o genOpts, depth int) *V {
 				continue
 			}
 			seen[k] = true
-			v.M = append(v.M, KV{k, genValue(r, o, depth+1)})
+			v.M = append(v.M, KV{K: k, V: genValue(r, o, depth+1)})
 		}
 		return v
 	}
@@ -694,6 +695,9 @@ func sig(v *V) string {
 			if e.K != "k" {
 				if intLike(e.K) {
 					k = "int"
+					if e.SK {
+						k = "int-as-string"
+					}
 				} else if len(e.K) <= 4 {
 					k = hexs(e.K)
 				} else {
